@@ -293,6 +293,17 @@ func (n *Node) ResetConns() {
 	}
 }
 
+// TimeoutConns makes every established connection of the node die silently (see vnet.TimeoutLoss).
+func (n *Node) TimeoutConns() {
+	var cs []*vnet.VConn
+	n.C.Locked(func() { cs, n.conns = n.conns, nil })
+	for _, c := range cs {
+		if !c.IsClosed() {
+			c.TimeoutLoss()
+		}
+	}
+}
+
 // CloseConns closes (FIN) every established connection of the node.
 func (n *Node) CloseConns() {
 	var cs []*vnet.VConn
